@@ -1013,17 +1013,36 @@ func c19Shrink(p *c19Prog, keep []bool, cfg int, what string, budget time.Durati
 		r := c19Task(p, k, cfg, 8, false)
 		return !r.ok && r.invalid == "" && r.what == what
 	}
-	for _, kind := range []string{"inc", "scope", "service", "const", "union", "exception", "struct", "enum", "typedef", "ns"} {
+	kinds := []string{"scope", "service", "const", "union", "exception", "struct", "enum", "typedef", "inc", "ns"}
+	try := func(sel func(i int) bool) {
+		cand := append([]bool{}, cur...)
+		n := 0
+		for i := range cand {
+			if cand[i] && sel(i) {
+				cand[i] = false
+				n++
+			}
+		}
+		if n > 0 && !time.Now().After(deadline) && fails(cand) {
+			cur = cand
+		}
+	}
+	// coarse: every item of a kind at once, then per (kind, file), then one by one
+	for _, kind := range kinds {
+		try(func(i int) bool { return p.items[i].kind == kind })
+	}
+	for _, kind := range kinds {
+		for f := len(p.paths) - 1; f >= 0; f-- {
+			try(func(i int) bool { return p.items[i].kind == kind && p.items[i].file == f })
+		}
+	}
+	for _, kind := range kinds {
 		for i := len(p.items) - 1; i >= 0; i-- {
 			if time.Now().After(deadline) {
 				return cur
 			}
-			if !cur[i] || p.items[i].kind != kind {
-				continue
-			}
-			cur[i] = false
-			if !fails(cur) {
-				cur[i] = true
+			if cur[i] && p.items[i].kind == kind {
+				try(func(j int) bool { return j == i })
 			}
 		}
 	}
@@ -1410,7 +1429,7 @@ func runC19(r *Rng, n int) {
 			continue
 		}
 		seenLang[lang] = true
-		small := c19Shrink(t.p, keep, t.cfg, first.what, 60*time.Second)
+		small := c19Shrink(t.p, keep, t.cfg, first.what, 90*time.Second)
 		c19ParallelRuns = true
 		res := c19Task(t.p, small, t.cfg, 8, false)
 		c19ParallelRuns = false
